@@ -101,9 +101,10 @@ theorem othersSame_settle (c : Conn) (tag : String) (sid : Nat) (err : Option Er
 than the one registered for that stream exactly as it was — status, fields, body, result -/
 theorem no_cross_delivery (c : Conn) (f : Frame.Frame) (tag : String)
     (hq : lookupA c.reqQueued f.stream = some tag) : OthersSame tag c (dispatch c f).1 := by
-  simp only [dispatch, hq]
+  obtain ⟨skd, skb, ske, hsk⟩ := skipHeaders_shape c f
+  simp only [dispatch, hq, hsk]
   split
-  · exact OthersSame.refl _ _
+  · exact OthersSame.of_reqs rfl
   · rename_i r hr
     split
     · exact OthersSame.of_reqs rfl
@@ -321,19 +322,42 @@ def C02_full : Prop :=
     getReq (dispatch (dispatch c (hdrFrame sid es false (block.take k))).1 (contFrame sid true (block.drop k))).1 tag =
     getReq (dispatch c (hdrFrame sid es true block)).1 tag
 
+/-- a frame for a stream nobody waits on, or whose request was taken back, changes no request -/
+theorem dispatch_gone_reqs (c : Conn) (f : Frame.Frame)
+    (h : lookupA c.reqQueued f.stream = none ∨
+      ∃ tag, lookupA c.reqQueued f.stream = some tag ∧
+        (getReq c tag = none ∨ ∃ r, getReq c tag = some r ∧ r.done = true)) :
+    (dispatch c f).1.reqs = c.reqs ∧
+    ((dispatch c f).1.reqQueued = c.reqQueued ∨ (dispatch c f).1.reqQueued = eraseA c.reqQueued f.stream) := by
+  obtain ⟨skd, skb, ske, hsk⟩ := skipHeaders_shape c f
+  rcases h with hq | ⟨tag, hq, hn | ⟨r, hr, hd⟩⟩
+  · simp [dispatch, hq, hsk]
+  · simp [dispatch, hq, hn, hsk]
+  · simp [dispatch, hq, hr, hd, hsk]
+
 theorem C02_full_holds : C02_full := by
   intro c sid tag block k es h0 hq _
   have hs1 : ∀ eh frag, (hdrFrame sid es eh frag).stream = sid := fun _ _ => rfl
   have hs2 : ∀ eh frag, (contFrame sid eh frag).stream = sid := fun _ _ => rfl
+  have gone : (getReq c tag = none ∨ ∃ r, getReq c tag = some r ∧ r.done = true) →
+      getReq (dispatch (dispatch c (hdrFrame sid es false (block.take k))).1 (contFrame sid true (block.drop k))).1 tag =
+      getReq (dispatch c (hdrFrame sid es true block)).1 tag := by
+    intro hg
+    have g1 := dispatch_gone_reqs c (hdrFrame sid es false (block.take k)) (.inr ⟨tag, by rw [hs1]; exact hq, hg⟩)
+    have g3 := dispatch_gone_reqs c (hdrFrame sid es true block) (.inr ⟨tag, by rw [hs1]; exact hq, hg⟩)
+    have hgr : ∀ c' : Conn, c'.reqs = c.reqs → getReq c' tag = getReq c tag := fun c' e => by simp only [getReq, e]
+    have g2 : (dispatch (dispatch c (hdrFrame sid es false (block.take k))).1 (contFrame sid true (block.drop k))).1.reqs = c.reqs := by
+      rcases g1.2 with e | e
+      · refine (dispatch_gone_reqs _ _ (.inr ⟨tag, by rw [hs2, e]; exact hq, ?_⟩)).1.trans g1.1
+        rw [hgr _ g1.1]; exact hg
+      · refine (dispatch_gone_reqs _ _ (.inl ?_)).1.trans g1.1
+        rw [hs2, e, hs1]; exact lookupA_eraseA _ _
+    rw [hgr _ g2, hgr _ g3.1]
   cases hr : getReq c tag with
-  | none => simp [dispatch, hs1, hs2, hq, hr]
+  | none => exact gone (.inl hr)
   | some r =>
     cases hd : r.done with
-    | true =>
-      have e : ∀ f : Frame.Frame, f.stream = sid → dispatch c f = ({ c with reqQueued := eraseA c.reqQueued sid }, false) := by
-        intro f hf; simp [dispatch, hf, hq, hr, hd]
-      rw [e _ (hs1 _ _), e _ (hs1 _ _)]
-      simp only [dispatch, hs2, lookupA_eraseA]
+    | true => exact gone (.inr ⟨r, hr, hd⟩)
     | false =>
       have h : Live c sid tag := ⟨hq, r, hr, hd⟩
       have := split_invariance c sid tag es (block.take k) [] (block.drop k) h0 h
@@ -480,5 +504,120 @@ example : (getReq (run {} (fullRun.take 3)).1 "a").map (·.errBuf) = some (some 
     (run {} (fullRun.take 2)).1.stateClosed = false := by decide +kernel
 
 end FullModel
+
+/-! ## header blocks for streams nobody waits on (finding F85, repaired): they still go through the HPACK decoder
+
+`Conn.dispatch` used to drop such a block undecoded (the request had timed out, been cancelled or finished): the entries
+the block adds to the dynamic table were lost and every later response, on any stream, was decoded against a table that
+was out of step with the server's. `skipHeaders` now runs the block through the decoder and drops the fields. -/
+
+section Skipped
+open H2.Client
+
+/-- **skip_agrees_with_read**: on a block that `readHeader` accepts (no decoding error, no malformed field), `skipFields`
+leaves the decoder in exactly the state `readHeader` leaves it in: dropping a response keeps the compression context where
+delivering it would have put it -/
+theorem skip_agrees_with_read (fuel : Nat) : ∀ (st : Hpack.DecState) (r : H2.Client.Req) (rs ss : Bool) (nf : Nat) (b : Bytes)
+    (st' : Hpack.DecState) (r' : H2.Client.Req), readHeader fuel st r rs ss nf b = (st', r', none) →
+    skipFields fuel st nf b = st' := by
+  induction fuel with
+  | zero => intro st r rs ss nf b st' r' h; simp [readHeader] at h
+  | succ k ih =>
+    intro st r rs ss nf b st' r' h
+    simp only [readHeader] at h
+    simp only [skipFields]
+    split
+    · rename_i he; simp only [he, if_true, Prod.mk.injEq] at h; exact h.1
+    · rename_i he
+      simp only [he, Bool.false_eq_true, if_false] at h
+      cases hn : nextField st nf b with
+      | idxMiss s1 => rw [hn] at h; simp at h
+      | err s1 => rw [hn] at h; simp at h
+      | done s1 => rw [hn] at h; simp only [Prod.mk.injEq] at h; exact h.1
+      | field s1 k' v rest =>
+        rw [hn] at h
+        simp only at h ⊢
+        cases hf : fieldStep r rs ss k' v with
+        | none => rw [hf] at h; simp at h
+        | some x =>
+          obtain ⟨r1, rs1, ss1⟩ := x
+          rw [hf] at h
+          exact ih s1 r1 rs1 ss1 (nf + 1) rest st' r' h
+
+/-- … in the form the read loop uses it: a whole response block, decoded from field 0 -/
+theorem skipped_block_keeps_context (st : Hpack.DecState) (r r' : H2.Client.Req) (st' : Hpack.DecState) (blk : Bytes)
+    (h : readHeader (blk.length + 1) st r false false 0 blk = (st', r', none)) :
+    skipFields (blk.length + 1) st 0 blk = st' :=
+  skip_agrees_with_read _ st r false false 0 blk st' r' h
+
+theorem skipHeaders_headers (c : Conn) (f : Frame.Frame) (es eh : Bool) (p : Option (Nat × Nat)) (frag : Bytes)
+    (hb : f.body = .headers es eh p frag) (ht : f.typ = Gen.c_FrameHeaders) :
+    skipHeaders c f = if Frame.hasFlag f.flags Gen.c_FlagEndHeaders then
+        { c with dec := skipFields (frag.length + 1) c.dec 0 frag, hdrBlock := [], hdrEndStream := 0 }
+      else { c with hdrBlock := frag } := by
+  unfold skipHeaders
+  rw [hb]
+  simp [ht]
+
+theorem skipHeaders_continuation (c : Conn) (f : Frame.Frame) (eh : Bool) (frag : Bytes)
+    (hb : f.body = .continuation eh frag) (ht : f.typ = Gen.c_FrameContinuation) :
+    skipHeaders c f = if Frame.hasFlag f.flags Gen.c_FlagEndHeaders then
+        { c with dec := skipFields ((c.hdrBlock ++ frag).length + 1) c.dec 0 (c.hdrBlock ++ frag), hdrBlock := [],
+                 hdrEndStream := 0 }
+      else { c with hdrBlock := c.hdrBlock ++ frag } := by
+  have hne : (Gen.c_FrameContinuation == Gen.c_FrameHeaders) = false := by decide
+  unfold skipHeaders
+  rw [hb]
+  simp [ht, hne]
+
+/-- **skipped_block_is_decoded**: a complete header block (one HEADERS frame with END_HEADERS) for a stream that is not, or
+no longer, in the table of waiting requests leaves the decoder in the state decoding that block leaves it in; no request,
+no table entry changes, and no block is left open -/
+theorem skipped_block_is_decoded (c : Conn) (sid : Nat) (es : Bool) (blk : Bytes) (hq : lookupA c.reqQueued sid = none) :
+    (dispatch c (hdrFrame sid es true blk)).1 =
+      { c with dec := skipFields (blk.length + 1) c.dec 0 blk, hdrBlock := [], hdrEndStream := 0 } := by
+  have hs : (hdrFrame sid es true blk).stream = sid := rfl
+  simp only [dispatch, hs, hq]
+  rw [skipHeaders_headers c _ es true none blk rfl rfl, hdr_eh]
+  rfl
+
+/-- … and cut into HEADERS + CONTINUATION at any octet it leaves the same state -/
+theorem skipped_split_block_is_decoded (c : Conn) (sid : Nat) (es : Bool) (first last : Bytes)
+    (hq : lookupA c.reqQueued sid = none) :
+    (dispatch (dispatch c (hdrFrame sid es false first)).1 (contFrame sid true last)).1 =
+      { c with dec := skipFields ((first ++ last).length + 1) c.dec 0 (first ++ last), hdrBlock := [], hdrEndStream := 0 } := by
+  have hs1 : (hdrFrame sid es false first).stream = sid := rfl
+  have hs2 : (contFrame sid true last).stream = sid := rfl
+  have e1 : (dispatch c (hdrFrame sid es false first)).1 = { c with hdrBlock := first } := by
+    simp only [dispatch, hs1, hq]
+    rw [skipHeaders_headers c _ es false none first rfl rfl, hdr_eh]
+    rfl
+  rw [e1]
+  simp only [dispatch, hs2, hq]
+  rw [skipHeaders_continuation _ _ true last rfl rfl, cont_eh]
+  rfl
+
+/-! ### non-vacuity: the witness of F85 in small -/
+
+/-- request "a" waits on stream 3; stream 1 has been given up -/
+def cF85 : Conn := { reqs := [{ tag := "a", sid := 3, hasConn := true }], reqQueued := [(3, "a")], nextID := 5, openStreams := 1 }
+
+/-- `:status: 200`, then the literal `x: y` WITH incremental indexing: the server's table gets the entry 62 -/
+def blockF85a : Bytes := [0x88, 0x40, 0x01, 0x78, 0x01, 0x79]
+/-- `:status: 200`, then the indexed field 62 -/
+def blockF85b : Bytes := [0x88, 0xbe]
+
+/-- the response to the stream nobody waits on is skipped, the response on stream 3 refers to the entry it inserted:
+"a" gets `x: y` and succeeds (before the repair: an index that does not exist, a connection-level decoding error) -/
+example :
+    (getReq (dispatch (dispatch cF85 (hdrFrame 1 true true blockF85a)).1 (hdrFrame 3 true true blockF85b)).1 "a").map
+      (fun q => (q.errBuf, q.status, q.hdrs)) = some (some .ok, 200, [([0x78], [0x79])]) ∧
+    (dispatch cF85 (hdrFrame 1 true true blockF85a)).1.reqs = cF85.reqs := by decide +kernel
+
+/-- the hypothesis of `skipped_block_keeps_context` holds for the first block, and both sides are the table with `x: y` -/
+example : (readHeader (blockF85a.length + 1) {} { tag := "z" } false false 0 blockF85a).2.2 = none ∧
+    (skipFields (blockF85a.length + 1) {} 0 blockF85a).dyn = [([0x78], [0x79])] := by decide +kernel
+
+end Skipped
 
 end H2.Props.C02
